@@ -532,7 +532,7 @@ async fn c12_scenario(p: C12Plan) {
             (vec![ResponseCode::NoError], "update")
         };
         let changed = modelz.rrsets != before.rrsets || modelz.serial != before.serial;
-        let (real_before, serial_before, _) = server.dump().await;
+        let (real_before, serial_before, empty_before) = server.dump().await;
         let fp_before = server.fingerprint().await;
         let resp = match server.handle::<SimTime>(bytes, Protocol::Tcp).await {
             Ok(Some(b)) => b,
@@ -582,7 +582,13 @@ async fn c12_scenario(p: C12Plan) {
             // hickory matches `RData::NULL(..)` where it means "empty RDATA": a TYPE NULL record
             // that does carry RDATA in a CLASS ANY / NONE position is accepted instead of FORMERR
             let null_rdata_meta = pre.iter().chain(upd.iter()).any(|r| matches!(r.class, DNSClass::ANY | DNSClass::NONE) && r.rtype == RecordType::NULL && r.rdata.is_some());
-            let fatal = if null_rdata_meta && exp_set.contains(&ResponseCode::FormErr) {
+            // an RRset emptied by an earlier RR deletion stays in the zone as an empty RecordSet
+            // (hickory keeps it; a repository test relies on that): a query-style lookup of
+            // the name then reports "no records" although other RRsets exist there
+            let emptied = empty_before > 0 && !pre.is_empty();
+            let fatal = if emptied && (stage == "prereq" || prereq_code) && causes.is_empty() {
+                exec::violate("C12.prereq", "emptied-rrset-at-owner", format!("message {i} ({m:?}): RFC 2136 {stage} gives {exp_txt}, server answered {got_rc:?}"))
+            } else if null_rdata_meta && exp_set.contains(&ResponseCode::FormErr) {
                 exec::violate("C12.rcode", "type-null-rdata-in-meta-class-accepted", format!("message {i} ({m:?}): RFC 2136 {stage} gives {exp_txt}, server answered {got_rc:?}"))
             } else if !causes.is_empty() && (stage == "prereq" || prereq_code) {
                 // one cause per report, by fixed priority, so that the shape is stable
@@ -625,7 +631,8 @@ async fn c12_scenario(p: C12Plan) {
                     return;
                 }
             } else if !real_changed && !changed && !any_step && advanced {
-                if exec::violate("C12.serial", "advanced-without-change", format!("message {i} ({m:?}): nothing changed, serial {serial_before} -> {serial_after}")) {
+                let shape = if empty_before > 0 { "advanced-without-change:emptied-rrset-removed" } else { "advanced-without-change" };
+                if exec::violate("C12.serial", shape, format!("message {i} ({m:?}): nothing changed, serial {serial_before} -> {serial_after}")) {
                     return;
                 }
             }
